@@ -92,7 +92,12 @@ def run(chk, replay=None):
         start, row = [x for x in index if x[0] <= bad_line][-1]
         ev = hist[bad_line - 1]
         kind = ev.get("ev")
-        key = "%s:%s" % (kind, "+".join(sorted(set(mention_kinds_of(byid[row["id"]])))) or "-")
+        # key: the event kind + in which position kinds the generator mentioned the offending register
+        mk = byid[row["id"]].get("mention_kinds", {}).get("r%s" % ev.get("reg"))
+        if mk:
+            key = "%s:mentioned-as:%s" % (kind, "+".join(sorted(set(mk))))
+        else:
+            key = "%s:%s" % (kind, "+".join(sorted(set(mention_kinds_of(byid[row["id"]])))) or "-")
         chk.report(key, "%s: %s in\n%s" % (why, json.dumps(ev), row["text"]),
                    {"program": byid[row["id"]], "event": ev, "events": row["events"], "mentioned": row["mentioned"],
                     "scratch_int": row["scratch_int"], "scratch_float": row["scratch_float"]})
